@@ -5,6 +5,6 @@ ID=$1; EDIT=$2; RUNS=${3:-}
 D=/var/tmp/mutest-$$
 git -C /repo worktree add -q $D HEAD
 trap "git -C /repo worktree remove --force $D" EXIT
-(cd $D && python3 -c "$EDIT" && GOFLAGS=-mod=mod GOPROXY=off go build ./... && GOFLAGS=-mod=mod GOPROXY=off go test -count=1 ./json ./proto ./thrift 2>&1 | tail -3)
+(cd $D && python3 -c "$EDIT") || exit 9; (cd $D && GOFLAGS=-mod=mod GOPROXY=off go build ./...) || { echo MUTANT-DOES-NOT-BUILD; exit 9; }; (cd $D && GOFLAGS=-mod=mod GOPROXY=off go test -count=1 ./json ./proto ./thrift 2>&1 | tail -3)
 if [ -n "$RUNS" ]; then export VERIF_RUNS=$RUNS; fi
 VERIF_REPO=$D /verif/check $ID quick 2>&1 | grep -v "^  " | tail -${TAILN:-6}
